@@ -26,7 +26,7 @@ class Ctx:
         self.attrs = {i: a for (i, _, a) in sc.tasks}
         self.idx = {tid: k for k, tid in enumerate(self.ids)}
         self.n = len(self.ids)
-        self.decimal = sc.layer == 'L7'
+        self.decimal = sc.layer.startswith('L7')
         self.ttol = SEC if self.decimal else MS
 
     def is_leaf(self, tid):
@@ -261,7 +261,7 @@ def c04(sc, ctx, ex, ob, V, P):
         if o.start is None or o.end is None:
             continue
         for d in dates:
-            if not (day(o.start) <= d and d < o.end + (ctx.ttol if ctx.decimal else timedelta(0))):
+            if not (day(o.start - (ctx.ttol if ctx.decimal else timedelta(0))) <= d and d < o.end + (ctx.ttol if ctx.decimal else timedelta(0))):
                 V('row-outside-task-dates', '-', f'task {tid}: row on {d:%Y-%m-%d} outside [{o.start}, {o.end})')
             if fwd and clock0 is not None and d < day(clock0):
                 V('row-before-today', '-', f'task {tid}: row on {d:%Y-%m-%d} before the current day {clock0}')
